@@ -75,6 +75,10 @@ def generate(rng, tier):
     for seed in range(5):
         cases.append({"k": "randseg", "segs": [x for x in gen.rand_timeline(rng, "K0", maxn=5) if x[1] > x[0]] or [[0, 3]],
                       "seed": seed, "weighted": seed % 2 == 0})
+    for seed in range(40 if tier == "thorough" else 12):
+        base = rng.randrange(0, 20)
+        segs = [[base, base + 3], [base + 3, base + 8], [base + 2, base + 5], [base + 20, base + 21], [base + 1, base + 30]]
+        cases.append({"k": "randseg", "segs": rng.sample(segs, rng.randrange(2, 6)), "seed": 100 + seed, "weighted": seed % 3 != 0})
     kinds = {}
     for c in cases:
         kinds[c["k"]] = kinds.get(c["k"], 0) + 1
